@@ -55,6 +55,10 @@ struct C<'a> {
     /// configured servers the stack keeps (DNS_MAX_SERVER_COUNT)
     n_servers: usize,
     all_servers: Vec<IpAddr>,
+    /// the node sits on an Ethernet (unreachable-servers mode): its hardware address, for the frames handed to it
+    eth_mac: Option<[u8; 6]>,
+    /// total time by which polls came later than poll_at asked (a stalled application)
+    late_total: i64,
 }
 
 impl<'a> C<'a> {
@@ -80,6 +84,20 @@ pub fn run(tape: &mut Tape, props: Props, thorough: bool, trace_on: bool) -> Out
         let other = NodeCfg::basic('V', Medium::Ip, 1500, 1, !v6);
         cfg.addrs.push(other.addrs[0]);
     }
+    // now and then the configured servers are off-link and there is no route: no query can ever be handed to the
+    // device, and the queries must still end (time-out per server, then failure)
+    // (on Ethernet, where a next hop has to be resolved first - Medium::Ip sends regardless; one time in three
+    // the servers are on the link instead and simply never answer address resolution)
+    let unreachable = match tape.draw(12) {
+        11 | 10 => 2u8,
+        9 => 1,
+        _ => 0,
+    };
+    let unroutable = unreachable == 2;
+    if unreachable != 0 {
+        cfg.medium = Medium::Ethernet;
+        cfg.mtu = 1514;
+    }
     let mut node = build_node(&cfg);
     let view = cfg.view();
     let v = cfg.addrs[0].0;
@@ -87,8 +105,16 @@ pub fn run(tape: &mut Tape, props: Props, thorough: bool, trace_on: bool) -> Out
         if v6 {
             let mut a = [0u8; 16];
             a[0] = 0xfd;
+            if unroutable {
+                a[0] = 0x20;
+                a[1] = 0x01;
+                a[2] = 0x0d;
+                a[3] = 0xb8;
+            }
             a[15] = i;
             IpAddr::V6(a)
+        } else if unroutable {
+            IpAddr::V4([192, 0, 2, i])
         } else {
             IpAddr::V4([10, 0, 0, i])
         }
@@ -99,8 +125,9 @@ pub fn run(tape: &mut Tape, props: Props, thorough: bool, trace_on: bool) -> Out
     let smol_servers: Vec<smoltcp::wire::IpAddress> = servers.iter().map(to_smol).collect();
     let sock = dns::Socket::new(&smol_servers, vec![]);
     let h = node.sockets.add(sock);
-    let desc = format!("dns dual-stack={} v6={} servers={:?}", dual, v6, servers);
-    let mut c = C { tape, props, node, view, now: 1_000_000, stats: Stats::default(), hash: LogHash::new(), trace: vec![], trace_on, events: 0, v, servers: servers[..1].to_vec(), h, qs: vec![], pending_rx: vec![], n_servers: nserv.min(cfg_value("DNS_MAX_SERVER_COUNT", 1)), all_servers: servers[..nserv.min(cfg_value("DNS_MAX_SERVER_COUNT", 1))].to_vec() };
+    let desc = format!("dns dual-stack={} v6={} servers={:?} unreachable={}", dual, v6, servers, ["no", "on-link servers never resolve (Ethernet)", "off-link servers without a route (Ethernet)"][unreachable as usize]);
+    let eth_mac = if unreachable != 0 { Some(cfg.mac) } else { None };
+    let mut c = C { tape, props, node, view, now: 1_000_000, stats: Stats::default(), hash: LogHash::new(), trace: vec![], trace_on, events: 0, v, servers: servers[..1].to_vec(), h, qs: vec![], pending_rx: vec![], n_servers: nserv.min(cfg_value("DNS_MAX_SERVER_COUNT", 1)), all_servers: servers[..nserv.min(cfg_value("DNS_MAX_SERVER_COUNT", 1))].to_vec(), eth_mac, late_total: 0 };
     let mut r = body(&mut c, thorough);
     // "no response content can make processing panic or loop" is part of C19 itself
     if let Err(v) = &mut r {
@@ -163,7 +190,7 @@ fn poll(c: &mut C) -> Result<(), Violation> {
             if let Some(t) = qq.last_tx {
                 let gap = now - t;
                 // retransmissions back off: 1, 2, 4, 8, 10, 10 ... seconds (per server)
-                if c.props.has("C19") && gap > 10_500_000 {
+                if c.props.has("C19") && gap > 10_500_000 && c.late_total == 0 {
                     return Err(viol("C19", "retry-timing", "C19.timing/retransmission-gap-over-10s", format!("{} us between two transmissions of the same query", gap)));
                 }
                 qq.last_gap = Some(gap);
@@ -449,7 +476,7 @@ fn check_results(c: &mut C) -> Result<(), Violation> {
                 // per destination: transmissions at 0, 1, 3, 7 s and the 10 s time-out (acted upon at the next
                 // wake-up); destinations = configured servers the build keeps, or the two mDNS groups
                 let dests = if q.mdns { 2 } else { c.n_servers.max(1) } as i64;
-                let bound = dests * 15_000_000 + 25_000_000;
+                let bound = dests * 15_000_000 + 25_000_000 + c.late_total;
                 if c.props.has("C19") && c.now - q.started > bound {
                     return Err(viol("C19", "termination", "C19.termination/query-still-pending", format!("query {:?} still pending {} s after it was started (polled per poll_at)", q.name, (c.now - q.started) / 1_000_000)));
                 }
@@ -587,7 +614,14 @@ fn body(c: &mut C, thorough: bool) -> Result<(), Violation> {
             }
         }
         c.now = next.max(c.now);
-        if c.now > horizon {
+        // a stalled application polls late now and then - by milliseconds or by more than a whole time-out
+        if c.tape.draw(16) == 0 {
+            let late = *c.tape.pick(&[1_000i64, 500_000, 5_000_000, 15_000_000, 40_000_000]);
+            c.now += late;
+            c.late_total += late;
+            c.stats.inc("sched.late-poll");
+        }
+        if c.now > horizon + c.late_total {
             break;
         }
         // deliver what is due
@@ -621,6 +655,10 @@ fn body(c: &mut C, thorough: bool) -> Result<(), Violation> {
                     c.qs[qi].neg = true;
                 }
             }
+            let f = match c.eth_mac {
+                Some(mac) => enc_eth(mac, [2, 0, 0, 0, 0, 0x99], if f[0] >> 4 == 4 { ETH_IPV4 } else { ETH_IPV6 }, &f),
+                None => f,
+            };
             c.hash.bytes(&f);
             c.node.dev.rx.push_back(f);
             c.stats.inc("frames.delivered");
